@@ -148,4 +148,129 @@ theorem loop16_lit (w width : Nat) (bs : Bytes) (rest data : Bytes) (x : Nat) (y
   simp only [e0, e1, e2, if_false]
   split <;> rename_i heq <;> rw [e1, e3, hj] at heq <;> simp only [heq]
 
+/-- one operation of a line: it starts at (or is moved to) the end of the painted prefix and leaves the loop at the new
+    end, or on the next line when a literal filled the line -/
+theorem loop16_op (w width y : Nat) (A B : Bytes) (hA : A.length = y * width) (hw : w ≤ width)
+    (o : Op) (hv : o.valid = true) (p rest : Bytes) (x : Nat) (yI : Int) (hpos : Pos width x yI p.length y)
+    (hfit : p.length + o.expand.length ≤ width) (hns : ¬ (p.length < w ∧ w < p.length + o.expand.length)) :
+    ∃ x' yI', ((p.length + o.expand.length < width ∧ x' = p.length + o.expand.length ∧ yI' = (y : Int)) ∨
+               (p.length + o.expand.length = width ∧ Done width x' yI' y)) ∧
+      loop16 w width (o.bytes ++ rest) (bufP width A B p) x yI = loop16 w width rest (bufP width A B (p ++ o.expand)) x' yI' := by
+  have hyI : 0 ≤ yI := by rcases hpos with ⟨_, h⟩ | ⟨_, _, h⟩ <;> omega
+  have hlen := expand_length_pos o hv
+  have hj := jump16_pos w width o.expand.length x yI p.length y hpos hlen hfit hns hw
+  cases o with
+  | lit bs =>
+    simp only [Op.valid, Bool.and_eq_true, decide_eq_true_eq] at hv
+    simp only [Op.expand] at hfit hns hj hlen ⊢
+    rw [loop16_lit w width bs rest _ x yI _ _ hv.1 hv.2 hyI hj]
+    rw [paintLit16_spec width y A B hA bs p rest hfit (by intro h; subst h; simp at hlen)]
+    by_cases hfull : p.length + bs.length = width
+    · refine ⟨0, (y : Int) - 1, Or.inr ⟨hfull, Or.inl ⟨rfl, rfl⟩⟩, ?_⟩
+      simp only [hfull, if_true]
+    · refine ⟨p.length + bs.length, (y : Int), Or.inl ⟨by omega, rfl, rfl⟩, ?_⟩
+      simp only [hfull, if_false]
+  | run n v =>
+    simp only [Op.valid, Bool.and_eq_true, decide_eq_true_eq] at hv
+    simp only [Op.expand, List.length_replicate] at hfit hns hj hlen ⊢
+    rw [loop16_run w width n v rest _ x yI _ _ hv.1 hv.2 hyI hj]
+    rw [paintRun16_spec width y v A B hA n p hfit]
+    refine ⟨p.length + n, (y : Int), ?_, rfl⟩
+    by_cases hfull : p.length + n = width
+    · exact Or.inr ⟨hfull, Or.inr ⟨hfull, rfl⟩⟩
+    · exact Or.inl ⟨by omega, rfl, rfl⟩
+
+theorem loop16_ops (w width y : Nat) (A B : Bytes) (hA : A.length = y * width) (hw : w ≤ width) (rest : Bytes) :
+    ∀ (ops : List Op) (p : Bytes) (x : Nat) (yI : Int), Pos width x yI p.length y →
+      (∀ o ∈ ops, o.valid = true) → ops ≠ [] → straddles w p.length ops = false → p.length + (unpack ops).length = width →
+      ∃ x' yI', Done width x' yI' y ∧
+        loop16 w width (packed ops ++ rest) (bufP width A B p) x yI
+          = loop16 w width rest (bufP width A B (p ++ unpack ops)) x' yI' := by
+  intro ops
+  induction ops with
+  | nil => intro p x yI _ _ h; exact absurd rfl h
+  | cons o os ih =>
+    intro p x yI hpos hv _ hst hlen
+    have hvo := hv o (by simp)
+    have hvos : ∀ o' ∈ os, o'.valid = true := fun o' h => hv o' (by simp [h])
+    simp only [straddles, Bool.or_eq_false_iff, Bool.and_eq_false_iff, decide_eq_false_iff_not] at hst
+    simp only [unpack, packed, List.flatMap_cons, List.length_append, List.append_assoc] at hlen ⊢
+    obtain ⟨x1, y1, hcase, heq⟩ := loop16_op w width y A B hA hw o hvo p (List.flatMap Op.bytes os ++ rest) x yI hpos (by omega)
+      (by rcases hst.1 with h | h <;> omega)
+    rw [heq]
+    have hpos1 := expand_length_pos o hvo
+    cases os with
+    | nil =>
+      simp only [List.flatMap_nil, List.length_nil, Nat.add_zero, List.nil_append, List.append_nil] at hlen ⊢
+      rcases hcase with ⟨hlt, _, _⟩ | ⟨_, hdone⟩
+      · omega
+      · exact ⟨x1, y1, hdone, rfl⟩
+    | cons o2 os2 =>
+      have hpos2 := expand_length_pos o2 (hvos o2 (by simp))
+      rcases hcase with ⟨hlt, hx1, hy1⟩ | ⟨hfull, _⟩
+      · have hp' : Pos width x1 y1 (p ++ o.expand).length y := Or.inl ⟨by simp [hx1], hy1⟩
+        obtain ⟨x2, y2, hdone, heq2⟩ := ih (p ++ o.expand) x1 y1 hp' hvos (by simp)
+          (by simpa using hst.2) (by simp only [unpack, List.length_append]; omega)
+        refine ⟨x2, y2, hdone, ?_⟩
+        simp only [unpack, packed] at heq2
+        rw [heq2]
+        simp [List.append_assoc]
+      · simp only [List.flatMap_cons, List.length_append] at hlen; omega
+
+def RowStart (width x : Nat) (yI : Int) (y : Nat) : Prop := Pos width x yI 0 y
+
+/-- all lines of a planar image (`y + 1` of them, top line first) fill the buffer from file row `y` down to 0 -/
+theorem loop16_rows (w width : Nat) (hw : w ≤ width) (hpos : 0 < width) :
+    ∀ (opsRows : List (List Op)) (rows : List Bytes) (y : Nat) (B : Bytes) (x : Nat) (yI : Int), RowStart width x yI y →
+      validRows opsRows rows = true → rows.length = y + 1 → (∀ r ∈ rows, r.length = width) →
+      (∀ ops ∈ opsRows, straddles w 0 ops = false) →
+      loop16 w width (packed opsRows.flatten) (zeros ((y + 1) * width) ++ B) x yI = .ok (rows.reverse.flatten ++ B) := by
+  intro opsRows
+  induction opsRows with
+  | nil =>
+    intro rows y B x yI _ hv hl _ _
+    cases rows with
+    | nil => simp at hl
+    | cons r rs => simp [validRows] at hv
+  | cons ops os ih =>
+    intro rows y B x yI hstart hv hl hlen hst
+    cases rows with
+    | nil => simp [validRows] at hv
+    | cons r rs =>
+      simp only [validRows, Bool.and_eq_true, List.all_eq_true, beq_iff_eq] at hv
+      obtain ⟨⟨hvo, hun⟩, hvr⟩ := hv
+      have hr : r.length = width := hlen r (by simp)
+      have hne : ops ≠ [] := by
+        intro h; subst h; simp [unpack] at hun; subst hun; simp at hr; omega
+      have hz : zeros ((y + 1) * width) = zeros (y * width) ++ rowImg width 0 width [] := by
+        rw [rowImg_nil _ _ _ (by omega), ← zeros_add]; congr 1; rw [Nat.add_mul]; simp
+      obtain ⟨x1, y1, hdone, hstep⟩ := loop16_ops w width y (zeros (y * width)) B (by simp) hw (packed os.flatten) ops [] x yI
+        hstart hvo hne (hst ops (by simp)) (by simp [hun, hr])
+      simp only [bufP, List.nil_append] at hstep
+      have hpk : packed (ops :: os).flatten = packed ops ++ packed os.flatten := by simp [packed]
+      rw [hpk, hz]
+      simp only [List.append_assoc] at hstep ⊢
+      rw [hstep, hun, rowImg_full width r hr]
+      by_cases hy : y = 0
+      · subst hy
+        have : rs = [] := by simp at hl; exact hl
+        subst this
+        have hos : os = [] := by
+          cases os with
+          | nil => rfl
+          | cons a b => simp [validRows] at hvr
+        subst hos
+        simp only [List.flatten_nil, packed, List.flatMap_nil]
+        rw [loop16_nil]
+        simp [zeros_zero]
+      · obtain ⟨y', rfl⟩ : ∃ y', y = y' + 1 := ⟨y - 1, by omega⟩
+        have hl' : rs.length = y' + 1 := by simp at hl; omega
+        have hstart' : RowStart width x1 y1 y' := by
+          rcases hdone with ⟨hx, hy1⟩ | ⟨hx, hy1⟩
+          · exact Or.inl ⟨hx, by rw [hy1]; omega⟩
+          · exact Or.inr ⟨rfl, hx, by rw [hy1]; omega⟩
+        have := ih rs y' (r ++ B) x1 y1 hstart' hvr hl' (fun r' h => hlen r' (by simp [h])) (fun o h => hst o (by simp [h]))
+        rw [this]
+        simp [List.append_assoc]
+
 end Drx.Bitd
